@@ -18,7 +18,7 @@ type ShuffleCase struct {
 const shuffleRule = "case = (n, seed); the slice is 0..n-1; ShuffleRand is run on two copies with two generators " +
 	"rand.New(rand.NewSource(seed)): each result is a permutation, both results are identical, both generators are left in " +
 	"the same state, and for n>=2 that state is not the initial one (the supplied generator was consumed); Shuffle (global " +
-	"generator): permutation only; non-trivial = n >= 8 (an implementation that ignores its generator coincides with probability <= 1/40320)"
+	"generator): permutation only; non-trivial = n >= 8 (an implementation that ignores its generator coincides with probability <= 1/40320); one case in eight is run once more as 4 independent copies in parallel goroutines"
 
 func isPerm(s []int) bool {
 	seen := make([]bool, len(s))
